@@ -27,6 +27,8 @@ SeqsUpTo(RS, n) == UNION {[1..m -> RS] : m \in 0..n}
 \* one table T(a, b): every instance with up to DbRows rows over {NULL, 1, 2}^2
 SingleDbs == { [t \in {"T"} |-> [cols |-> <<"a", "b">>, rows |-> rs]] : rs \in SeqsUpTo(RowsOver(2), DbRows) }
 
+\* with one row per table duplicates would never occur: the same row twice is added (innerunique, DISTINCT)
+WithDoubles(RS) == SeqsUpTo(RS, DbRows) \cup (IF DbRows = 1 THEN {<<r, r>> : r \in RS} ELSE {})
 \* three tables for joins: T(k, a), B(k, b), C(k, c); keys over {NULL, 1, 2}, payloads distinguish the tables
 JoinKeyRows(v) == {<<x, v>> : x \in Vals}
 JoinDbs ==
@@ -34,8 +36,8 @@ JoinDbs ==
        IF t = "T" THEN [cols |-> <<"k", "a">>, rows |-> tr]
        ELSE IF t = "B" THEN [cols |-> <<"k", "b">>, rows |-> br]
        ELSE [cols |-> <<"k", "c">>, rows |-> << <<I(1), I(7)>>, <<I(2), I(9)>> >>]] :
-    tr \in SeqsUpTo(JoinKeyRows(I(1)) \cup {<<I(1), I(2)>>}, DbRows),
-    br \in SeqsUpTo(JoinKeyRows(I(5)) \cup {<<I(1), I(3)>>}, DbRows) }
+    tr \in WithDoubles(JoinKeyRows(I(1)) \cup {<<I(1), I(2)>>}),
+    br \in WithDoubles(JoinKeyRows(I(5)) \cup {<<I(1), I(3)>>}) }
 
 ---------------------------------------------------------------------------
 (* operator menus with meaning                                             *)
@@ -72,6 +74,9 @@ SemMenu == <<
 \* a smaller menu for the later positions of long sequences: every operator kind,
 \* filters that are not monotone in the sort keys, limits under both directions
 CoreMenu == <<1, 2, 24, 5, 7, 9, 13, 14, 16, 18, 23, 20, 21, 22>>
+\* CoreFrom = 0: every position from the operators whose order matters most (sorts, filters, limits, top), so that
+\* sequences of four stay enumerable
+OrderMenu == <<13, 14, 25, 1, 24, 16, 17, 18, 19>>
 NoRepeat == {7, 8, 21, 22}     \* extend introduces fresh names only; as / render names are used once
 
 \* joins: T(k, a) with B(k, b) [and C(k, c)]
@@ -96,7 +101,9 @@ JoinMenu == <<
   \* equalities between columns of one side are ordinary null-safe comparisons
   Join(Id("inner"), Tab("B", <<>>), <<Call("not", <<Bin("Eq", Qual("$left", "k"), Qual("$left", "a"))>>)>>),
   Join(Id("leftouter"), Tab("B", <<>>), <<ck, Bin("NE", Bin("Eq", Qual("$right", "k"), Qual("$right", "b")), Col("true"))>>),
-  Join(None, Tab("B", <<Summarize(<<>>, <<ECol(None, ck)>>, FALSE)>>), <<ck>>)
+  Join(None, Tab("B", <<Summarize(<<>>, <<ECol(None, ck)>>, FALSE)>>), <<ck>>),
+  \* a default-kind join nested in the right-hand pipeline after a filter (its own left side must be de-duplicated)
+  Join(Id("inner"), Tab("B", <<Where(Bin("GT", Col("b"), Num("3"))), Join(None, Tab("C", <<>>), <<ck>>)>>), <<ck>>)
 >>
 SecondJoins == {14, 15, 16}
 \* what may precede / follow a join
@@ -130,7 +137,8 @@ PairOps(menu, x) == LET n == Len(menu) IN
 PlanChoices(c) ==
   CASE PlanFamily = "seq" ->
          IF Len(c) >= MaxOps THEN {}
-         ELSE (IF Len(c) < CoreFrom THEN DOMAIN SemMenu ELSE SeqRange(CoreMenu)) \ {x \in NoRepeat : \E i \in DOMAIN c : c[i] = x}
+         ELSE (IF CoreFrom = 0 THEN SeqRange(OrderMenu)
+               ELSE IF Len(c) < CoreFrom THEN DOMAIN SemMenu ELSE SeqRange(CoreMenu)) \ {x \in NoRepeat : \E i \in DOMAIN c : c[i] = x}
     [] PlanFamily = "join" ->
          \* <<left prefix (0 = none), join, after (0 = none)>> then optionally a second join
          (CASE Len(c) = 0 -> PairRange(LeftMenu)
